@@ -112,7 +112,7 @@ class AdversarialLeastSquares:
             optimality = SymReal(z3.Real("optimality"))
         else:
             rng = np.random.default_rng(7)
-            jac = rng.uniform(0.5, 1.5, size=(m, n))
+            jac = rng.uniform(0.5, 1.5, size=(m, n)) * getattr(self, "jac_scale", 1.0)
             optimality = 0.125
         return OptimizeResult(x=x, fun=f, jac=jac, nfev=len(self.evals), njev=1, optimality=optimality, active_mask=np.array(mask),
                               message="adversarial stub finished", status=1, success=True, cost=None, grad=None)
